@@ -124,4 +124,11 @@ def main():
 
 
 if __name__ == '__main__':
-    main()
+    try:
+        main()
+    except SystemExit:
+        raise
+    except BaseException:      # an internal error of the checker is never a violation (exit 1): exit 3
+        traceback.print_exc()
+        print('CHECKER-ERROR internal error of the checker (see the traceback on stderr)')
+        sys.exit(3)
